@@ -71,6 +71,28 @@ pub open spec fn begin_fold(items: Seq<Result<AuthorizationResponse>>, rn: Optio
         }
     }
 }
+/// the receipt number a reservation stream reports: the last status information that carries one (everything else is skipped)
+pub open spec fn last_receipt(items: Seq<Result<AuthorizationResponse>>, rn: Option<usize>) -> Option<usize>
+    decreases items.len()
+{
+    if items.len() == 0 { rn } else {
+        match items[0] {
+            Ok(AuthorizationResponse::StatusInformation(data)) => last_receipt(items.skip(1), if data.receipt_no is Some { data.receipt_no } else { rn }),
+            _ => last_receipt(items.skip(1), rn),
+        }
+    }
+}
+/// the status information a commit stream reports: the last one (everything else is skipped)
+pub open spec fn last_status(items: Seq<Result<PartialReversalResponse>>, si: Option<packets::StatusInformation>) -> Option<packets::StatusInformation>
+    decreases items.len()
+{
+    if items.len() == 0 { si } else {
+        match items[0] {
+            Ok(PartialReversalResponse::StatusInformation(data)) => last_status(items.skip(1), Some(data)),
+            _ => last_status(items.skip(1), si),
+        }
+    }
+}
 /// commit: abort c => Aborted(c); otherwise the last status information of the whole stream
 pub open spec fn commit_fold(items: Seq<Result<PartialReversalResponse>>, si: Option<packets::StatusInformation>) -> Result<Option<packets::StatusInformation>>
     decreases items.len()
@@ -83,6 +105,72 @@ pub open spec fn commit_fold(items: Seq<Result<PartialReversalResponse>>, si: Op
         }
     }
 }
+
+// ---- C20: the result code of a terminal abort that reaches the operation (no transport/codec error item and no other
+// decisive packet before it). These scanners are deliberately weaker than the fold functions: they say nothing about
+// how error items are treated, only what an abort that IS received must lead to.
+pub open spec fn pr_clean_abort(items: Seq<Result<PartialReversalResponse>>, completion_decides: bool) -> Option<u8>
+    decreases items.len()
+{
+    if items.len() == 0 { None } else {
+        match items[0] {
+            Err(_) => None,
+            Ok(PartialReversalResponse::PartialReversalAbort(a)) => Some(a.error),
+            Ok(PartialReversalResponse::CompletionData(_)) => if completion_decides { None } else { pr_clean_abort(items.skip(1), completion_decides) },
+            Ok(_) => pr_clean_abort(items.skip(1), completion_decides),
+        }
+    }
+}
+pub open spec fn eod_clean_abort(items: Seq<Result<EndOfDayResponse>>) -> Option<u8>
+    decreases items.len()
+{
+    if items.len() == 0 { None } else {
+        match items[0] {
+            Err(_) => None,
+            Ok(EndOfDayResponse::Abort(a)) => Some(a.error),
+            Ok(EndOfDayResponse::CompletionData(_)) => None,
+            Ok(_) => eod_clean_abort(items.skip(1)),
+        }
+    }
+}
+pub open spec fn auth_clean_abort(items: Seq<Result<AuthorizationResponse>>) -> Option<u8>
+    decreases items.len()
+{
+    if items.len() == 0 { None } else {
+        match items[0] {
+            Err(_) => None,
+            Ok(AuthorizationResponse::Abort(a)) => Some(a.error),
+            Ok(_) => auth_clean_abort(items.skip(1)),
+        }
+    }
+}
+pub open spec fn sysinfo_clean_abort(items: Seq<Result<feig::sequences::GetSystemInfoResponse>>) -> Option<u8> {
+    if items.len() == 0 { None } else { match items[0] { Ok(feig::sequences::GetSystemInfoResponse::Abort(p)) => Some(p.error), _ => None } }
+}
+pub open spec fn init_clean_abort(items: Seq<Result<sequences::InitializationResponse>>) -> Option<u8>
+    decreases items.len()
+{
+    if items.len() == 0 { None } else {
+        match items[0] {
+            Err(_) => None,
+            Ok(sequences::InitializationResponse::Abort(a)) => Some(a.error),
+            Ok(sequences::InitializationResponse::CompletionData(_)) => None,
+            Ok(_) => init_clean_abort(items.skip(1)),
+        }
+    }
+}
+pub open spec fn settid_clean_abort(items: Seq<Result<sequences::SetTerminalIdResponse>>) -> Option<u8> {
+    if items.len() == 0 { None } else { match items[0] { Ok(sequences::SetTerminalIdResponse::Abort(a)) => Some(a.error), _ => None } }
+}
+/// reservation: FC 'device missing' means a PIN is required; an unknown code is reported by number; any other code c is Aborted(c)
+pub open spec fn begin_abort_err(c: u8) -> VErr {
+    match constants::em_from_u8(c) {
+        None => VErr::Msg(ID_UNKNOWN_ERROR_CODE()),
+        Some(constants::ErrorMessages::NecessaryDeviceNotPresentOrDefective) => VErr::Feig(Error::NeedsPinEntry),
+        Some(_) => aborted(c),
+    }
+}
+
 /// FNV-1a ids of the format strings (computed by the extractor; N9)
 pub open spec fn ID_UNKNOWN_ERROR_CODE() -> u64 { @FMTID("Unknown error code: 0x{:X}") }
 
@@ -185,19 +273,25 @@ pub open spec fn same_client(a: &Feig, b: &Feig) -> bool {
 pub open spec fn one_more(new: Seq<Exch>, old: Seq<Exch>) -> bool { new.len() == old.len() + 1 && extends(new, old) }
 
 impl Feig {
-    //@ fn src:zvt_feig_terminal/src/feig.rs | impl Feig | cancel_transaction_by_receipt_no | all-loops props=C19,C20
-    //@ tag cancel_by_receipt C19 C20 C08
+    //@ fn src:zvt_feig_terminal/src/feig.rs | impl Feig | cancel_transaction_by_receipt_no | all-loops props=~C19,~C20
         ensures
+    //@ tag cancel_by_receipt.state ~C19 ~C20 ~C07
             same_client(final(self), old(self)),
             one_more(final(self).socket.log(), old(self).socket.log()),
+    //@ tag cancel_by_receipt.request C19 C08
             final(self).socket.log().last().req matches Req::PreAuthReversal(q) && reversal_req(q, old(self).socket.cfg(), receipt_no),
+    //@ tag cancel_by_receipt.result ~C19 ~C20
             final(self).socket.log().last().items matches AnyItems::PreAuthReversal(its) && r == cancel_fold(its),
+    //@ tag cancel_by_receipt.abort_surfaces C20
+            final(self).socket.log().last().items matches AnyItems::PreAuthReversal(its) && (pr_clean_abort(its, true) matches Some(c) ==> r == Result::<()>::Err(aborted(c))),
     //@ loop 0
             invariant
                 same_client(self, old(self)),
                 one_more(self.socket.log(), old(self).socket.log()),
                 self.socket.log().last().req matches Req::PreAuthReversal(q) && reversal_req(q, old(self).socket.cfg(), receipt_no),
                 self.socket.log().last().items matches AnyItems::PreAuthReversal(its) && cancel_fold(stream.rest()) == cancel_fold(its),
+    //@ tag cancel_by_receipt.inv.abort C20
+                self.socket.log().last().items matches AnyItems::PreAuthReversal(its) && (pr_clean_abort(its, true) matches Some(c) ==> pr_clean_abort(stream.rest(), true) == Some(c)),
             ensures stream.rest().len() == 0,
     //@ attr
     #[verifier::exec_allows_no_decreases_clause]
@@ -249,7 +343,7 @@ impl Feig {
                 iter.index@ == 1 ==> (self.socket.log().last().items matches AnyItems::PreAuthReversal(its_b) && cancel_fold(its_b) == Result::<()>::Ok(())),
     //@ end
 
-    //@ fn src:zvt_feig_terminal/src/feig.rs | impl Feig | end_of_day | all-loops props=C19,~C20,~C07
+    //@ fn src:zvt_feig_terminal/src/feig.rs | impl Feig | end_of_day | all-loops props=~C19,~C20,~C07
         ensures
     //@ tag end_of_day.state C07 ~C19
             final(self).transactions@ == Map::<Seq<char>, usize>::empty(),
@@ -258,8 +352,15 @@ impl Feig {
             extends(final(self).socket.log(), old(self).socket.log()),
     //@ tag end_of_day.shape C19
             eod_shape(final(self).socket.log().skip(old(self).socket.log().len() as int), old(self).socket.cfg()),
-    //@ tag end_of_day.result C19 C20
+    //@ tag end_of_day.result ~C19 ~C20
             r == eod_result(final(self).socket.log().skip(old(self).socket.log().len() as int)),
+    //@ tag end_of_day.refusal_reported C19 C20
+            // when the end-of-day request itself is refused with code c: A0 'receiver not ready' is tolerated, any other code is reported
+            ({
+                let exs = final(self).socket.log().skip(old(self).socket.log().len() as int);
+                exs.len() == cp_len(exs) + 1 ==> (exs[cp_len(exs)].items matches AnyItems::EndOfDay(its_c) ==> (eod_clean_abort(its_c) matches Some(c)
+                    ==> r == (if c == 0xa0 { Result::<()>::Ok(()) } else { Err(aborted(c)) })))
+            }),
     //@ loop 0
             invariant
                 self.transactions@ == Map::<Seq<char>, usize>::empty(),
@@ -271,8 +372,10 @@ impl Feig {
                 cp_result(self.socket.log().skip(old(self).socket.log().len() as int).drop_last()) == Result::<()>::Ok(()),
                 cp_len(self.socket.log().skip(old(self).socket.log().len() as int)) == self.socket.log().len() - old(self).socket.log().len() - 1,
                 self.socket.log().last().req matches Req::EndOfDay(q) && eod_req(q, old(self).socket.cfg()),
-    //@ tag end_of_day.inv.fold C19 C20
+    //@ tag end_of_day.inv.fold ~C19 ~C20
                 self.socket.log().last().items matches AnyItems::EndOfDay(its_c) && eod_fold(stream.rest()) == eod_fold(its_c),
+    //@ tag end_of_day.inv.abort C19 C20
+                self.socket.log().last().items matches AnyItems::EndOfDay(its_c) && (eod_clean_abort(its_c) matches Some(c) ==> eod_clean_abort(stream.rest()) == Some(c)),
             ensures stream.rest().len() == 0,
     //@ attr
     #[verifier::exec_allows_no_decreases_clause]
@@ -297,17 +400,12 @@ impl Feig {
     //@ tag begin.map C07
             // the token is recorded with the receipt number the terminal issued iff the reservation went through
             !begin_refused(old(self), token@) ==> (
-                final(self).socket.log().last().items matches AnyItems::Reservation(its) && (match begin_fold(its, None) {
-                    Ok(Some(rn)) => final(self).transactions@ == old(self).transactions@.insert(token@, rn),
-                    _ => final(self).transactions@ == old(self).transactions@,
-                })),
-    //@ tag begin.result C20
-            (!begin_refused(old(self), token@) && one_more(final(self).socket.log(), old(self).socket.log())) ==> (
-                final(self).socket.log().last().items matches AnyItems::Reservation(its) && (match begin_fold(its, None) {
-                    Err(e) => r == Result::<()>::Err(e),
-                    Ok(None) => r == Result::<()>::Err(incomplete()),
-                    Ok(Some(rn)) => r is Ok,
-                })),
+                final(self).socket.log().last().items matches AnyItems::Reservation(its) && (
+                    if r is Ok { last_receipt(its, None) matches Some(rn) && final(self).transactions@ == old(self).transactions@.insert(token@, rn) }
+                    else { final(self).transactions@ == old(self).transactions@ })),
+    //@ tag begin.abort_surfaces C20
+            one_more(final(self).socket.log(), old(self).socket.log()) ==> (
+                final(self).socket.log().last().items matches AnyItems::Reservation(its) && (auth_clean_abort(its) matches Some(c) ==> r == Result::<()>::Err(begin_abort_err(c)))),
     //@ loop 0
             invariant
     //@ tag begin.inv.state C07
@@ -316,8 +414,10 @@ impl Feig {
                 !begin_refused(old(self), token@),
     //@ tag begin.inv.request C08 ~C07
                 self.socket.log().last().req matches Req::Reservation(q) && reservation_req(q, old(self).socket.cfg(), token@),
-    //@ tag begin.inv.fold C07 C20
-                self.socket.log().last().items matches AnyItems::Reservation(its) && begin_fold(stream.rest(), receipt_no) == begin_fold(its, None),
+    //@ tag begin.inv.receipt C07
+                self.socket.log().last().items matches AnyItems::Reservation(its) && last_receipt(stream.rest(), receipt_no) == last_receipt(its, None),
+    //@ tag begin.inv.abort C20
+                self.socket.log().last().items matches AnyItems::Reservation(its) && (auth_clean_abort(its) matches Some(c) ==> auth_clean_abort(stream.rest()) == Some(c)),
             ensures stream.rest().len() == 0,
     //@ attr
     #[verifier::exec_allows_no_decreases_clause]
@@ -362,6 +462,11 @@ impl Feig {
     //@ tag cancel.abort_surfaces C20
             old(self).transactions@.contains_key(token@) ==> ({
                 let exs = final(self).socket.log().skip(old(self).socket.log().len() as int);
+                exs[0].items matches AnyItems::PreAuthReversal(its) && (pr_clean_abort(its, true) matches Some(c) ==> r == Result::<()>::Err(aborted(c)))
+            }),
+    //@ tag cancel.fold_error ~C20 ~C19
+            old(self).transactions@.contains_key(token@) ==> ({
+                let exs = final(self).socket.log().skip(old(self).socket.log().len() as int);
                 exs[0].items matches AnyItems::PreAuthReversal(its) && (cancel_fold(its) matches Err(e) ==> r == Result::<()>::Err(e))
             }),
     //@ tag cancel.result C19
@@ -399,49 +504,52 @@ impl Feig {
                 exs[0].req matches Req::PartialReversal(q) && commit_req(q, old(self).socket.cfg(), token@, amount)
             }),
     //@ tag commit.closes_token C07
+            // the token is closed whatever the outcome; nothing else changes unless the client went idle (then the map is empty anyway)
+            old(self).transactions@.contains_key(token@) ==> ({
+                let m1 = old(self).transactions@.remove(token@);
+                final(self).transactions@ == m1 || (m1 =~= Map::<Seq<char>, usize>::empty() && final(self).transactions@ == Map::<Seq<char>, usize>::empty())
+            }),
+    //@ tag commit.idle_cleanup C19
+            // the terminal completed the commit (the reply stream ended without an abort) and nothing is open any more:
+            // clean up and request end-of-day at once; other transactions still open: no end-of-day, no pending query
             old(self).transactions@.contains_key(token@) ==> ({
                 let exs = final(self).socket.log().skip(old(self).socket.log().len() as int);
                 let m1 = old(self).transactions@.remove(token@);
                 exs[0].items matches AnyItems::PartialReversal(its) && (
-                    if commit_fold(its, None) is Ok && m1 =~= Map::<Seq<char>, usize>::empty() { final(self).transactions@ == Map::<Seq<char>, usize>::empty() }
-                    else { final(self).transactions@ == m1 })
+                    if pr_clean_abort(its, false) is Some { exs.len() == 1 }
+                    else if !(m1 =~= Map::<Seq<char>, usize>::empty()) { exs.len() == 1 }
+                    else { exs.len() == 1 || eod_shape(exs.skip(1), old(self).socket.cfg()) })
             }),
-    //@ tag commit.idle_cleanup C19
+    //@ tag commit.idle_cleanup_runs C19
+            // ... and it is not skipped: a commit whose stream ended normally (no abort, no error item) and that leaves nothing open
+            // did run the clean-up
             old(self).transactions@.contains_key(token@) ==> ({
                 let exs = final(self).socket.log().skip(old(self).socket.log().len() as int);
                 let m1 = old(self).transactions@.remove(token@);
-                exs[0].items matches AnyItems::PartialReversal(its) && (match commit_fold(its, None) {
-                    Err(e) => exs.len() == 1,
-                    Ok(_) => if m1 =~= Map::<Seq<char>, usize>::empty() { eod_shape(exs.skip(1), old(self).socket.cfg()) } else { exs.len() == 1 },
-                })
+                exs[0].items matches AnyItems::PartialReversal(its) && (
+                    (all_ok_items(its) && pr_clean_abort(its, false) is None && m1 =~= Map::<Seq<char>, usize>::empty())
+                        ==> (exs.len() >= 2 && eod_shape(exs.skip(1), old(self).socket.cfg())))
             }),
     //@ tag commit.abort_surfaces C20
             old(self).transactions@.contains_key(token@) ==> ({
                 let exs = final(self).socket.log().skip(old(self).socket.log().len() as int);
-                exs[0].items matches AnyItems::PartialReversal(its) && (commit_fold(its, None) matches Err(e) ==> (r matches Err(e2) && e2 == e))
+                exs[0].items matches AnyItems::PartialReversal(its) && (pr_clean_abort(its, false) matches Some(c) ==> (r matches Err(e2) && e2 == aborted(c)))
             }),
-    //@ tag commit.result C19
+    //@ tag commit.eod_refusal_reported C19
             old(self).transactions@.contains_key(token@) ==> ({
                 let exs = final(self).socket.log().skip(old(self).socket.log().len() as int);
-                let m1 = old(self).transactions@.remove(token@);
-                exs[0].items matches AnyItems::PartialReversal(its) && (
-                    (commit_fold(its, None) is Ok && m1 =~= Map::<Seq<char>, usize>::empty() && eod_result(exs.skip(1)) is Err)
-                        ==> (r matches Err(e2) && Result::<()>::Err(e2) == eod_result(exs.skip(1))))
+                (exs.len() >= 2 && eod_result(exs.skip(1)) is Err) ==> (r matches Err(e2) && Result::<()>::Err(e2) == eod_result(exs.skip(1)))
             }),
     //@ tag commit.summary C08
+            // the summary reproduces the last status information the terminal reported
             old(self).transactions@.contains_key(token@) ==> ({
                 let exs = final(self).socket.log().skip(old(self).socket.log().len() as int);
-                let m1 = old(self).transactions@.remove(token@);
-                exs[0].items matches AnyItems::PartialReversal(its) && (match commit_fold(its, None) {
-                    Err(e) => true,
-                    Ok(osi) => (!(m1 =~= Map::<Seq<char>, usize>::empty()) || eod_result(exs.skip(1)) is Ok) ==> summary_result(osi, r),
-                })
+                exs[0].items matches AnyItems::PartialReversal(its) && (r matches Ok(ts) ==> (last_status(its, None) matches Some(si) && summary_ok(ts, si)))
             }),
     //@ loop 0
             invariant
     //@ tag commit.inv.state C07
                 old(self).transactions@.contains_key(token@),
-                removed == Some(old(self).transactions@[token@]),
                 self.transactions@ == old(self).transactions@.remove(token@),
                 self.transactions_max_num == old(self).transactions_max_num,
                 self.socket.cfg() == old(self).socket.cfg(),
@@ -449,8 +557,12 @@ impl Feig {
                 self.socket.log().last().req matches Req::PartialReversal(q) && q.receipt_no == Some(old(self).transactions@[token@]),
     //@ tag commit.inv.request C08 ~C07
                 self.socket.log().last().req matches Req::PartialReversal(q) && commit_req(q, old(self).socket.cfg(), token@, amount),
-    //@ tag commit.inv.fold C20 C08 ~C07 ~C19
-                self.socket.log().last().items matches AnyItems::PartialReversal(its) && commit_fold(stream.rest(), status_information) == commit_fold(its, None),
+    //@ tag commit.inv.summary C08
+                self.socket.log().last().items matches AnyItems::PartialReversal(its) && last_status(stream.rest(), status_information) == last_status(its, None),
+    //@ tag commit.inv.abort C20 ~C19
+                self.socket.log().last().items matches AnyItems::PartialReversal(its) && (pr_clean_abort(its, false) matches Some(c) ==> pr_clean_abort(stream.rest(), false) == Some(c)),
+    //@ tag commit.inv.noabort C19
+                self.socket.log().last().items matches AnyItems::PartialReversal(its) && ((all_ok_items(its) && pr_clean_abort(its, false) is None) ==> (all_ok_items(stream.rest()) && pr_clean_abort(stream.rest(), false) is None)),
             ensures stream.rest().len() == 0,
     //@ attr
     #[verifier::exec_allows_no_decreases_clause]
@@ -497,56 +609,69 @@ impl Feig {
     //@ tag read_card.inv.fold C18
                 self.socket.log().last().items matches AnyItems::ReadCard(its) && read_fold(stream.rest(), card_spec(card_info)) == read_fold(its, None),
     //@ tag read_card.inv.abort C20
-                self.socket.log().last().items matches AnyItems::ReadCard(its) && (card_info is None ==> abort_first(stream.rest()) == abort_first(its)) && (card_info is Some ==> abort_first(its) is None),
+                self.socket.log().last().items matches AnyItems::ReadCard(its) && (abort_first(its) matches Some(c) ==> abort_first(stream.rest()) == Some(c)),
             ensures stream.rest().len() == 0,
     //@ attr
     #[verifier::exec_allows_no_decreases_clause]
     //@ end
 
-    //@ fn src:zvt_feig_terminal/src/feig.rs | impl Feig | get_system_info | all-loops props=C20
+    //@ fn src:zvt_feig_terminal/src/feig.rs | impl Feig | get_system_info | all-loops props=~C20
         ensures
             same_client(final(self), old(self)),
             one_more(final(self).socket.log(), old(self).socket.log()),
             final(self).socket.log().last().req matches Req::GetSystemInfo(q) && q.password is None && q.instr == 1,
-    //@ tag get_system_info.outcome C20
+    //@ tag get_system_info.outcome ~C20
             final(self).socket.log().last().items matches AnyItems::GetSystemInfo(its) && (match sysinfo_fold(its) {
                 Err(e) => r matches Err(e2) && e2 == e,
                 Ok(p) => r matches Ok(p2) && p2 == p,
             }),
+    //@ tag get_system_info.abort_surfaces C20
+            final(self).socket.log().last().items matches AnyItems::GetSystemInfo(its) && (sysinfo_clean_abort(its) matches Some(c) ==> (r matches Err(e2) && e2 == aborted(c))),
     //@ loop 0
             invariant
                 same_client(self, old(self)),
                 one_more(self.socket.log(), old(self).socket.log()),
                 self.socket.log().last().req matches Req::GetSystemInfo(q) && q.password is None && q.instr == 1,
                 self.socket.log().last().items matches AnyItems::GetSystemInfo(its) && sysinfo_fold(stream.rest()) == sysinfo_fold(its),
+    //@ tag get_system_info.inv.abort C20
+                self.socket.log().last().items matches AnyItems::GetSystemInfo(its) && (sysinfo_clean_abort(its) matches Some(c) ==> sysinfo_clean_abort(stream.rest()) == Some(c)),
             ensures stream.rest().len() == 0,
     //@ attr
     #[verifier::exec_allows_no_decreases_clause]
     //@ end
 
-    //@ fn src:zvt_feig_terminal/src/feig.rs | impl Feig | initialize | all-loops props=C20
+    //@ fn src:zvt_feig_terminal/src/feig.rs | impl Feig | initialize | all-loops props=~C20
         ensures
             same_client(final(self), old(self)),
             one_more(final(self).socket.log(), old(self).socket.log()),
             final(self).socket.log().last().req matches Req::Initialization(q) && q.password == old(self).socket.cfg().feig_config.password,
-    //@ tag initialize.outcome C20
+    //@ tag initialize.outcome ~C20
             final(self).socket.log().last().items matches AnyItems::Initialization(its) && r == init_fold(its),
+    //@ tag initialize.abort_surfaces C20
+            final(self).socket.log().last().items matches AnyItems::Initialization(its) && (init_clean_abort(its) matches Some(c) ==> r == Result::<()>::Err(aborted(c))),
     //@ loop 0
             invariant
                 same_client(self, old(self)),
                 one_more(self.socket.log(), old(self).socket.log()),
                 self.socket.log().last().req matches Req::Initialization(q) && q.password == old(self).socket.cfg().feig_config.password,
                 self.socket.log().last().items matches AnyItems::Initialization(its) && init_fold(stream.rest()) == init_fold(its),
+    //@ tag initialize.inv.abort C20
+                self.socket.log().last().items matches AnyItems::Initialization(its) && (init_clean_abort(its) matches Some(c) ==> init_clean_abort(stream.rest()) == Some(c)),
             ensures stream.rest().len() == 0,
     //@ attr
     #[verifier::exec_allows_no_decreases_clause]
     //@ end
 
-    //@ fn src:zvt_feig_terminal/src/feig.rs | impl Feig | set_terminal_id | all-loops props=C20
+    //@ fn src:zvt_feig_terminal/src/feig.rs | impl Feig | set_terminal_id | all-loops props=~C20
         ensures
             same_client(final(self), old(self)),
             extends(final(self).socket.log(), old(self).socket.log()),
-    //@ tag set_terminal_id.outcome C20
+    //@ tag set_terminal_id.abort_surfaces C20
+            ({
+                let exs = final(self).socket.log().skip(old(self).socket.log().len() as int);
+                exs.len() == 2 ==> (exs[1].items matches AnyItems::SetTerminalId(its1) ==> (settid_clean_abort(its1) matches Some(c) ==> r == Result::<()>::Err(aborted(c))))
+            }),
+    //@ tag set_terminal_id.outcome ~C20
             ({
                 let exs = final(self).socket.log().skip(old(self).socket.log().len() as int);
                 &&& exs.len() >= 1
@@ -574,12 +699,14 @@ impl Feig {
                 parse_usize_spec(old(self).socket.cfg().terminal_id@) == Some(terminal_id),
                 self.socket.log().last().req matches Req::SetTerminalId(q) && q.terminal_id == Some(terminal_id) && q.password == old(self).socket.cfg().feig_config.password,
                 self.socket.log().last().items matches AnyItems::SetTerminalId(its1) && settid_fold(stream.rest()) == settid_fold(its1),
+    //@ tag set_terminal_id.inv.abort C20
+                self.socket.log().last().items matches AnyItems::SetTerminalId(its1) && (settid_clean_abort(its1) matches Some(c) ==> settid_clean_abort(stream.rest()) == Some(c)),
             ensures stream.rest().len() == 0,
     //@ attr
     #[verifier::exec_allows_no_decreases_clause]
     //@ end
 
-    //@ fn src:zvt_feig_terminal/src/feig.rs | impl Feig | configure | all-loops props=C20
+    //@ fn src:zvt_feig_terminal/src/feig.rs | impl Feig | configure | all-loops props=~C20
         ensures
             final(self).transactions_max_num == old(self).transactions_max_num,
             final(self).socket.cfg() == old(self).socket.cfg(),
@@ -593,9 +720,10 @@ pub open spec fn abort_first(items: Seq<Result<ReadCardResponse>>) -> Option<u8>
 {
     if items.len() == 0 { None } else {
         match items[0] {
+            Err(_) => None,
             Ok(ReadCardResponse::Abort(data)) => Some(data.error),
             Ok(ReadCardResponse::StatusInformation(_)) => None,
-            _ => abort_first(items.skip(1)),
+            Ok(_) => abort_first(items.skip(1)),
         }
     }
 }
@@ -680,6 +808,14 @@ pub open spec fn settid_fold(items: Seq<Result<sequences::SetTerminalIdResponse>
     }
 }
 
+pub open spec fn all_ok_items<T>(items: Seq<Result<T>>) -> bool { forall|i: int| 0 <= i < items.len() ==> (#[trigger] items[i]) is Ok }
+pub open spec fn summary_ok(ts: TransactionSummary, si: packets::StatusInformation) -> bool {
+    &&& (ts.amount == match si.amount { Some(a) => Some(a as u64), None => None })
+    &&& (ts.trace_number == match si.trace_number { Some(a) => Some(a as u64), None => None })
+    &&& (match si.date { Some(n) => ts.date matches Some(t) && t@ == fmt1_spec::<usize>(@FMTID("{:04}"), n), None => ts.date is None })
+    &&& (match si.time { Some(n) => ts.time matches Some(t) && t@ == fmt1_spec::<usize>(@FMTID("{:06}"), n), None => ts.time is None })
+    &&& (ts.terminal_id is Some <==> si.terminal_id is Some)
+}
 /// the summary reproduces what the terminal reported (texts via uninterpreted format functions)
 pub open spec fn summary_result(osi: Option<packets::StatusInformation>, r: Result<TransactionSummary>) -> bool {
     match osi {
